@@ -22,6 +22,7 @@ import (
 	"unsafe"
 
 	"github.com/bytedance/sonic/internal/rt"
+	"github.com/bytedance/sonic/internal/vhook"
 )
 
 /** Program Map **/
@@ -152,7 +153,9 @@ func (self *ProgramCache) Reset() {
 }
 
 func (self *ProgramCache) Get(vt *rt.GoType) interface{} {
-	return (*_ProgramMap)(atomic.LoadPointer(&self.p)).get(vt)
+	p := atomic.LoadPointer(&self.p)
+	vhook.Emit("pcache.get", uintptr(p))
+	return (*_ProgramMap)(p).get(vt)
 }
 
 func (self *ProgramCache) Compute(vt *rt.GoType, compute func(*rt.GoType, ...interface{}) (interface{}, error), ex ...interface{}) (interface{}, error) {
@@ -162,9 +165,11 @@ func (self *ProgramCache) Compute(vt *rt.GoType, compute func(*rt.GoType, ...int
 	/* use defer to prevent inlining of this function */
 	self.m.Lock()
 	defer self.m.Unlock()
+	vhook.Emit("pcache.lock", uintptr(unsafe.Pointer(self)))
 
 	/* double check with write lock held */
 	if val = self.Get(vt); val != nil {
+		vhook.Emit("pcache.hit", uintptr(unsafe.Pointer(self)))
 		return val, nil
 	}
 
@@ -172,8 +177,10 @@ func (self *ProgramCache) Compute(vt *rt.GoType, compute func(*rt.GoType, ...int
 	if val, err = compute(vt, ex...); err != nil {
 		return nil, err
 	}
+	vhook.Emit("pcache.computed", uintptr(unsafe.Pointer(self)))
 
 	/* update the RCU cache */
 	atomic.StorePointer(&self.p, unsafe.Pointer((*_ProgramMap)(atomic.LoadPointer(&self.p)).add(vt, val)))
+	vhook.Emit("pcache.publish", uintptr(unsafe.Pointer(self)))
 	return val, nil
 }
